@@ -74,6 +74,43 @@ fn nth_string(mut j: u64, len: usize, alpha: &[char]) -> String {
     s
 }
 
+const DEEP_SYMS: [&str; 10] = ["\0", " ", "\t", "\n", "0", "1", "9", ".", "A", "\u{663}"];
+fn deep_cases(tier: Tier) -> Vec<(usize, usize, usize)> {
+    let lens: &[usize] = if tier == Tier::Thorough { &[1 << 12, 1 << 16, 1 << 20, 1 << 22] } else { &[1 << 12, 1 << 16, 1 << 20] };
+    let mut v = vec![];
+    for s in 0..DEEP_SYMS.len() { for &l in lens { for shape in 0..5 { v.push((s, l, shape)); } } }
+    v
+}
+fn deep_cases_label(tier: Tier, i: u64) -> String {
+    let (s, l, shape) = deep_cases(tier)[i as usize];
+    format!("{:?} x {l}, shape {}", DEEP_SYMS[s], ["run", "0.7F+run", "run+0.7F", "0.7+run+F", "0.7F1+run"][shape])
+}
+/// The one-case runner built in the dev profile (see /verif/deepbin and ./check).
+fn deep_bin() -> String { std::env::var("VERIF_DEEP_BIN").unwrap_or_else(|_| "/verif/target/deep/debug/deep".into()) }
+/// `mc C16 --child deep <index>`: parse one very long text on the main thread of this process.
+pub fn child_deep(tier: Tier, rest: &[String]) -> i32 {
+    let Some(i) = rest.first().and_then(|x| x.parse::<usize>().ok()) else { return 2 };
+    let Some(&(s, l, shape)) = deep_cases(tier).get(i) else { return 2 };
+    let run = DEEP_SYMS[s].repeat(l);
+    let text = match shape { 0 => run, 1 => format!("0.7F{run}"), 2 => format!("{run}0.7F"), 3 => format!("0.7{run}F"), _ => format!("0.7F1{run}") };
+    let _ = std::thread::spawn(|| { std::thread::sleep(std::time::Duration::from_secs(60)); println!("hang"); std::process::exit(1); });
+    match guard(|| GameVersion::from_str(&text)) {
+        Err(p) => { println!("panic\n{p}"); 1 },
+        Ok(Err(_)) => { println!("rejected"); 0 },
+        Ok(Ok(v)) => {
+            if v.major.is_finite() {
+                let printed = v.to_string();
+                match guard(|| GameVersion::from_str(&printed)) {
+                    Ok(Ok(w)) if w == v => {},
+                    _ => { println!("not-reparseable\n{v:?} prints as {} bytes that do not parse back to it", printed.len()); return 1; },
+                }
+            }
+            println!("parsed");
+            0
+        },
+    }
+}
+
 fn check_string(s: &str, order: u64, site: &str, acc: &mut Acc) -> Option<GameVersion> {
     acc.eval();
     let replay = json!({"site": site, "index": order, "string": s});
@@ -395,6 +432,40 @@ pub fn sites(tier: Tier) -> Vec<Site> {
             }));
         }
     }
+    // very long runs of one symbol (2^12 .. 2^20 of them; 2^22 in the thorough tier) in front of, inside and behind a
+    // version: a parser whose stack depth or work grows with the text dies here.  A stack overflow aborts the
+    // process, so every case is parsed in a child process (default 8 MiB main-thread stack) and a dead child is
+    // the verdict for the case in flight.
+    {
+        let n = deep_cases(tier).len() as u64;
+        let tier_name = tier.name();
+        sites.push(Site::new("very-long-runs", n,
+            "10 symbols (NUL, space, tab, newline, 0, 1, 9, '.', A, a 2-byte numeral) x run lengths 2^12, 2^16, 2^20 (thorough: 2^22) x 5 shapes (alone, behind 0.7F, in front of 0.7F, inside 0.7_F, behind 0.7F1); each parsed in a child process of this build and in one of an unoptimised build of the library (/verif/deepbin): no panic, no abort, no hang; parse, print, re-parse",
+            move |i, acc| {
+                // twice: in this (optimised) build and in the unoptimised one - what an optimiser quietly repairs
+                // (a recursion it turns into a loop) is live in the builds users test with
+                let (s, l, shape) = deep_cases(tier)[i as usize];
+                let cp = format!("{:x}", DEEP_SYMS[s].chars().next().unwrap() as u32);
+                let exe = std::env::current_exe().unwrap();
+                let runs: [(&str, std::io::Result<std::process::Output>); 2] = [
+                    ("optimised build", std::process::Command::new(&exe).args(["C16", "--tier", tier_name, "--child", "deep", &i.to_string()]).output()),
+                    ("unoptimised build", std::process::Command::new(deep_bin()).args([cp.as_str(), &l.to_string(), &shape.to_string()]).output()),
+                ];
+                for (build, out) in runs {
+                    acc.eval();
+                    let replay = json!({"site": "very-long-runs", "index": i});
+                    match out {
+                        Err(e) => panic!("MACHINERY: cannot spawn the child ({build}): {e}"),
+                        Ok(o) => match o.status.code() {
+                            Some(0) => { if o.stdout.starts_with(b"parsed") { acc.nontrivial(); acc.class("parsed"); } else { acc.class("rejected"); } },
+                            Some(1) => acc.violate(i, format!("C16|very-long-runs|{}", String::from_utf8_lossy(&o.stdout).lines().next().unwrap_or("failed")), format!("case #{i} ({}), {build}: {}", deep_cases_label(tier, i), String::from_utf8_lossy(&o.stdout)), replay),
+                            Some(2) => panic!("MACHINERY: the child ({build}) refused its arguments"),
+                            other => acc.violate(i, "C16|very-long-runs|process-died".into(), format!("case #{i} ({}), {build}: the parsing process died ({other:?}, {:?}): {}", deep_cases_label(tier, i), o.status, String::from_utf8_lossy(&o.stderr).chars().take(300).collect::<String>()), replay),
+                        },
+                    }
+                }
+            }));
+    }
     // ... nor over longer histories on one thread: every sequence of up to 6 parses over five texts
     {
         let corpus: Vec<(String, String)> = ["0.7F", "0.7F12", "0.6R", "0.7A1234", "x"].iter().map(|s| (format!("version {s:?}"), s.to_string())).collect();
@@ -415,6 +486,7 @@ pub fn sites(tier: Tier) -> Vec<Site> {
 }
 
 pub fn run(tier: Tier, replay: Option<String>) -> i32 {
+    if !std::path::Path::new(&deep_bin()).exists() { eprintln!("MACHINERY: {} is missing (./check builds it)", deep_bin()); return 3; }
     if replay.is_none() { start_watchdog(ALPHA.len() as u64); }
     super::run_e1("C16", tier, "exploration", replay, sites(tier),
         "all strings to a length bound over a 13-symbol class alphabet; all 8-byte wire forms of LFS's shape through the VER codec; all pairs / triples of parsed versions for the order axioms; every case distinct by construction; non-trivial = strings that parse / pairs compared",
